@@ -228,16 +228,20 @@ func (m *BaseUndoLogManager) FlushUndoLog(tranCtx *types.TransactionContext, con
 	parseContext := make(map[string]string, 0)
 	parseContext[serializerKey] = undo.UndoConfig.LogSerialization
 	parseContext[compressorTypeKey] = undo.UndoConfig.CompressConfig.Type
-	undoLogContent := m.encodeUndoLogCtx(parseContext)
 	rollbackInfo, err := m.serializeBranchUndoLog(&branchUndoLog, parseContext[serializerKey])
 	if err != nil {
 		return err
 	}
-	// the context names the compress type the rollback path will decompress with
-	rollbackInfo, err = compressor.CompressorType(parseContext[compressorTypeKey]).GetCompressor().Compress(rollbackInfo)
-	if err != nil {
-		return err
+	// the context names the compress type the rollback path will decompress with;
+	// a log the compressor cannot handle (lz4 refuses data it cannot shrink, the
+	// normal case for a small log) is stored as it is, and the context says so
+	if compressed, cerr := compressor.CompressorType(parseContext[compressorTypeKey]).GetCompressor().Compress(rollbackInfo); cerr == nil {
+		rollbackInfo = compressed
+	} else {
+		log.Warnf("undo log of xid %s branch %d is stored uncompressed: %v", tranCtx.XID, tranCtx.BranchID, cerr)
+		parseContext[compressorTypeKey] = string(compressor.CompressorNone)
 	}
+	undoLogContent := m.encodeUndoLogCtx(parseContext)
 
 	return m.InsertUndoLog(undo.UndologRecord{
 		BranchID:     tranCtx.BranchID,
